@@ -17,8 +17,8 @@ uint64_t serials[ROUNDS];   /* ghost: fibers told SERIAL in round k */
 
 void vm_init(void) { k_init(); fiber_barrier_init(&bar, NF); }
 
-static inline void body(void) {
-  for (int k = 0; k < ROUNDS; k++) {
+static inline void body_n(int rounds) {
+  for (int k = 0; k < rounds; k++) {
     __atomic_fetch_add(&arrived[k], 1, __ATOMIC_SEQ_CST);
     int r = fiber_barrier_wait(&bar);
     vm_assert(arrived[k] == NF, "C12 barrier: a fiber passed round k before all fibers had arrived at round k");
@@ -27,15 +27,28 @@ static inline void body(void) {
     vm_progress();
   }
 }
-void vm_thread_1(void) { body(); }
+#ifdef ASYM
+/* count 3: fibers 1 and 3 take part in round 0 only, fiber 2 re-enters the barrier immediately (round 1) where it must block:
+   the cheapest program in which "a fiber re-entering round k+1 while a round-k participant has arrived but not yet enqueued" exists */
+void vm_thread_1(void) { body_n(1); }
+void vm_thread_2(void) { body_n(2); }
+void vm_thread_3(void) { body_n(1); }
+#else
+void vm_thread_1(void) { body_n(ROUNDS); }
 #if NF > 1
-void vm_thread_2(void) { body(); }
+void vm_thread_2(void) { body_n(ROUNDS); }
 #endif
 #if NF > 2
-void vm_thread_3(void) { body(); }
+void vm_thread_3(void) { body_n(ROUNDS); }
+#endif
 #endif
 void vm_final(void) {
   uint64_t blocked = k_blocked_forever();
+#ifdef ASYM
+  vm_assert(blocked == 1 && vm_is_parked(2), "C12 barrier: in the asymmetric program exactly fiber 2 stays blocked in round 1 (everybody returns from round 0)");
+  vm_assert(serials[0] == 1 && serials[1] == 0, "C12 barrier: not exactly one serial fiber in round 0");
+#else
   vm_assert(blocked == 0, "C12 barrier: a fiber never returns from fiber_barrier_wait although all fibers arrived");
   for (int k = 0; k < ROUNDS; k++) vm_assert(serials[k] == 1, "C12 barrier: not exactly one serial fiber in a round");
+#endif
 }
